@@ -455,3 +455,5 @@ def run(chk, facts, tier):
     # typechecker behind it must reject undeclared / missing attributes (shared with C11)
     from rules import c11_record
     c11_record.check(chk, facts)
+    from rules import c03_errors
+    c03_errors.check(chk, facts)
